@@ -108,8 +108,9 @@ def gen(rng, n, tier):
             else:
                 evs.append(_reply(rng, err_p=0.12))
         body = gen_sched(rng, valid, rhythm, rng.randint(1, 18))
+        uni = proto == "tcp" and rng.chance(0.12)
         if valid:  # a client close before the body means no more client data
-            seen = set()
+            seen = {"s"} if uni else set()
             fixed = []
             for e in evs + body:
                 if e[0] == "data" and e[1] in seen:
@@ -124,7 +125,7 @@ def gen(rng, n, tier):
             evs = evs + body
         if rng.chance(0.75):
             evs += [_reply(rng) for _ in range(rng.randint(1, 6))]
-        out.append({"proto": proto, "ignore": ignore, "sopen": sopen, "evs": evs})
+        out.append({"proto": proto, "ignore": ignore, "sopen": sopen, "uni": uni, "evs": evs})
     return out
 
 
@@ -139,14 +140,14 @@ def setup_impl():
     from mitmproxy.proxy.layers import tcp as ltcp, udp as ludp
 
 
-def _ctx(sopen):
+def _ctx(sopen, uni=False):
     opts = options.Options()
     Proxyserver().load(opts)
     ctx = context.Context(connection.Client(peername=("client", 1234), sockname=("127.0.0.1", 8080),
                                             timestamp_start=1605699329, state=CS.OPEN), opts)
     ctx.server.address = ("server", 80)
     if sopen:
-        ctx.server.state = CS.OPEN
+        ctx.server.state = CS.CAN_WRITE if uni else CS.OPEN
         ctx.server.timestamp_start = 1605699330
     return ctx
 
@@ -160,7 +161,8 @@ def run_impl(case):
     MsgHook = getattr(L, pre + "MessageHook")
     Injected = getattr(L, pre + "MessageInjected")
     Message = mtcp.TCPMessage if tcp else mudp.UDPMessage
-    ctx = _ctx(case["sopen"])
+    uni = bool(case.get("uni"))
+    ctx = _ctx(case["sopen"], uni)
     layer = (L.TCPLayer if tcp else L.UDPLayer)(ctx, ignore=case["ignore"])
     spare_flow = (mtcp.TCPFlow if tcp else mudp.UDPFlow)(ctx.client, ctx.server, True)
     conn = {"c": ctx.client, "s": ctx.server}
@@ -197,7 +199,7 @@ def run_impl(case):
                     cmd.connection.error = "connect failed"
                     ev = events.OpenConnectionCompleted(cmd, "connect failed")
                 else:
-                    cmd.connection.state = CS.OPEN                                  # server.py open_connection
+                    cmd.connection.state = CS.CAN_WRITE if uni else CS.OPEN        # server.py open_connection
                     cmd.connection.timestamp_start = 1605699331
                     ev = events.OpenConnectionCompleted(cmd, None)
             else:
@@ -258,7 +260,8 @@ def run_impl(case):
             "phase": phase(), "waitk": waitk, "queue": q,
             "cst": int(ctx.client.state.value), "sst": int(ctx.server.state.value),
             "msgs": [[m.from_client, hx(m.content)] for m in f.messages] if f else [],
-            "orig": orig, "err": bool(f and f.error), "live": bool(f.live) if f else True}
+            "orig": orig, "err": bool(f and f.error), "live": bool(f.live) if f else True,
+            "eof": [True in getattr(layer, "_eof_handled", ()), False in getattr(layer, "_eof_handled", ())]}
 
 
 # ------------------------------------------------------------------ Coq terms
@@ -295,10 +298,10 @@ def c_cmd(c):
 def coq_case(case, obs):
     out = [c for c in obs["out"] if c[0] != "alien"]
     msgs = clist([f"({cbool(m[0])}, {cbytes(unhx(m[1]))})" for m in obs["msgs"]], "(bool * bytes)%type")
-    return (f"Case {'TCP' if case['proto'] == 'tcp' else 'UDP'} {cbool(case['ignore'])} {cbool(case['sopen'])} "
+    return (f"Case {'TCP' if case['proto'] == 'tcp' else 'UDP'} {cbool(case['ignore'])} {cbool(case['sopen'])} {cbool(case.get('uni'))} "
             f"{clist([c_ev(e) for e in case['evs']], 'event')} {cbool(obs['alien'])} {cbool(obs['crashed'])} "
             f"{clist([c_cmd(c) for c in out], 'cmd')} {obs['phase']} {obs['waitk']} {len(obs['queue'])} "
-            f"{obs['cst']} {obs['sst']} {msgs} {cbool(obs['err'])} {cbool(obs['live'])}")
+            f"{obs['cst']} {obs['sst']} {msgs} {cbool(obs['eof'][0])} {cbool(obs['eof'][1])} {cbool(obs['err'])} {cbool(obs['live'])}")
 
 
 # ------------------------------------------------------------------ oracle (property on the implementation)
@@ -308,6 +311,8 @@ def _valid(case):
     if not evs or evs[0] != ["start"] or any(e[0] == "start" for e in evs[1:]):
         return False
     closed = set()
+    if case.get("uni") and any(e[0] in ("data", "closed") and e[1] == "s" for e in evs):
+        return False  # a write-only server connection delivers neither data nor EOF
     for e in evs:
         if e[0] == "data" and e[1] in closed:
             return False
@@ -429,6 +434,8 @@ def nontrivial(case, obs):
 
 def classify(case, obs):
     t = [case["proto"], "ignore" if case["ignore"] else "flow", "valid" if _valid(case) else "adversarial"]
+    if case.get("uni"):
+        t.append("write-only-server")
     out = obs["out"]
     for k, tag in (("half", "half-close"), ("end_hook", "ended"), ("error_hook", "connect-failed"), ("open", "opened")):
         if any(c[0] == k for c in out):
